@@ -16,27 +16,28 @@ type OSProfile struct {
 	EmptyProbeEntry  bool
 	PhaseObjectDrift bool
 	// SliceDrift lets the intruder delete ObjectSlices (sliced scenarios).
-	SliceDrift    bool
-	MaxSets       int
-	Preexisting   int    // chance (x/10) that a pool object pre-exists in a generated ownership state
-	Lifecycle     bool   // pause / archive / delete / orphan-delete user operations
-	Violations    bool   // preflight violators
-	AdmissionFlip bool   // admission may start (and stop) refusing an object after the sets were created
-	Delegation    bool   // phases with class default (and hosted-cluster when cfg.Hosted)
-	Intruder      string // "", "boundary", "granular"
-	Finalizers    bool   // intruder may put blocking finalizers on managed objects
-	ForceCluster  int    // 0 draw, 1 namespaced, 2 cluster-scoped
-	LateCreate    bool   // some sets are created by user operations during the run
-	NeverReady    bool   // some workloads never become ready / stay stale
-	NoForge       bool   // third parties never forge ownership by one of the generated sets
-	CompletePrev  bool   // every set names all earlier sets as previous (no contested objects)
-	Sliced        int    // 0 inline; 1 move phase objects into hand-made ObjectSlices
-	OldestFirst   bool   // archive/delete operations only hit the oldest set still alive (no re-create race among older revisions)
-	DelegateMask  int    // bit i set: phase i of every set is delegated to class "default" (no choices consumed)
-	NoOrphan      bool   // no orphan-propagation deletes among the lifecycle operations
-	CondMappings  bool   // some listed objects carry conditionMappings (C19)
-	AllLate       bool   // every set but the first is created by its own user operation
-	DriftOnly     bool   // the intruder only edits managed fields, deletes, and blocks deletion (C10)
+	SliceDrift       bool
+	MaxSets          int
+	Preexisting      int    // chance (x/10) that a pool object pre-exists in a generated ownership state
+	Lifecycle        bool   // pause / archive / delete / orphan-delete user operations
+	Violations       bool   // preflight violators
+	RecreateOrphaned bool   // an orphan-deleted set may come back under the same name (and then be paused)
+	AdmissionFlip    bool   // admission may start (and stop) refusing an object after the sets were created
+	Delegation       bool   // phases with class default (and hosted-cluster when cfg.Hosted)
+	Intruder         string // "", "boundary", "granular"
+	Finalizers       bool   // intruder may put blocking finalizers on managed objects
+	ForceCluster     int    // 0 draw, 1 namespaced, 2 cluster-scoped
+	LateCreate       bool   // some sets are created by user operations during the run
+	NeverReady       bool   // some workloads never become ready / stay stale
+	NoForge          bool   // third parties never forge ownership by one of the generated sets
+	CompletePrev     bool   // every set names all earlier sets as previous (no contested objects)
+	Sliced           int    // 0 inline; 1 move phase objects into hand-made ObjectSlices
+	OldestFirst      bool   // archive/delete operations only hit the oldest set still alive (no re-create race among older revisions)
+	DelegateMask     int    // bit i set: phase i of every set is delegated to class "default" (no choices consumed)
+	NoOrphan         bool   // no orphan-propagation deletes among the lifecycle operations
+	CondMappings     bool   // some listed objects carry conditionMappings (C19)
+	AllLate          bool   // every set but the first is created by its own user operation
+	DriftOnly        bool   // the intruder only edits managed fields, deletes, and blocks deletion (C10)
 }
 
 const (
@@ -271,6 +272,25 @@ func GenOS(w *World, prof OSProfile) *Scenario {
 				}
 			case 4:
 				sc.UserOps = append(sc.UserOps, UserOp{Label: "delete --cascade=orphan " + name, Do: func(w *World) { _ = w.TP("user", w.Mgmt).Delete(key, "Orphan") }})
+				if prof.RecreateOrphaned && s.Chance(1, 2, "recreate-orphaned") {
+					// the same name comes back and finds what its predecessor left behind, delegated phase objects included
+					var again store.Obj
+					for _, sp := range specs {
+						if store.Str(sp, "metadata", "name") == name {
+							again = store.Copy(sp)
+						}
+					}
+					if again != nil {
+						sc.UserOps = append(sc.UserOps, UserOp{Label: "re-create " + name + " (after the orphan delete)", Do: func(w *World) {
+							if _, exists := w.Mgmt.Objs[key]; !exists {
+								_, _ = w.TP("user", w.Mgmt).Create(store.Copy(again))
+							}
+						}})
+						if s.Bool("pause-recreated") {
+							sc.UserOps = append(sc.UserOps, UserOp{Label: "pause " + name, Do: func(w *World) { setLifecycle(w, key, "Paused") }})
+						}
+					}
+				}
 			}
 		}
 	}
